@@ -1260,5 +1260,7 @@ func Main(targets []*Target) {
 	case "C17":
 		rn.runMarshal(targets, n)
 		rn.runUnmarshal(targets, n)
+	case "C12":
+		rn.runExtensions(targets, 4*n)
 	}
 }
